@@ -30,12 +30,23 @@ Definition plan_states (p : plan) : list (option state) :=
 Definition zero_time : Z := (-62135596800000000000)%Z.
 Definition instant (t : Z) : Z := if Z.eqb t 0 then zero_time else t.
 
-(* every recorded start / end time of the plan *)
+(* ---- every attempt of every action of the plan (sequence actions and check actions) ---- *)
+Definition action_attempts (a : action) : list attempt :=
+  match a_attempts a with Some l => l | None => [] end.
+Definition checks_attempts (c : checks) : list attempt := flat_map action_attempts (olist (c_actions c)).
+Definition seq_attempts (q : sequence) : list attempt := flat_map action_attempts (olist (q_actions q)).
+Definition block_attempts (b : block) : list attempt :=
+  flat_map checks_attempts (block_groups b) ++ flat_map seq_attempts (olist (b_seqs b)).
+Definition plan_attempts (p : plan) : list attempt :=
+  flat_map checks_attempts (plan_groups p) ++ flat_map block_attempts (olist (p_blocks p)).
+
+(* every recorded time of the plan: start / end of every object and of every attempt *)
 Definition plan_times (p : plan) : list Z :=
   flat_map (fun st => match st with Some s => [instant (s_start s); instant (s_end s)] | None => [] end)
-           (plan_states p).
+           (plan_states p) ++
+  flat_map (fun a => [instant (at_start a); instant (at_end a)]) (plan_attempts p).
 
-(* [m] is the most recent recorded activity of [p]: the latest of its start/end times, the zero time
+(* [m] is the most recent recorded activity of [p]: the latest of its recorded times, the zero time
    if it has none *)
 Definition latest_activity (p : plan) (m : Z) : Prop :=
   (zero_time <= m)%Z /\ (forall t, In t (plan_times p) -> (t <= m)%Z) /\
